@@ -22,10 +22,26 @@ def render_fields(frame):
     return ','.join(f'{it.name}:{R.item_token(it)}:{value_token(it.value)}' for it in items) or '-'
 
 
-def impl_decode(cls, payload, disturb=None):
+_REUSE = {}
+
+
+def impl_decode(cls, payload, disturb=None, reuse=False):
     """construct(payload); then (frame independence) build and decode other instances of the same
-    class, and only then read the first frame's fields."""
-    fr = cls.construct(bytearray(payload))
+    class, and only then read the first frame's fields. reuse=True: the SAME frame object decodes successive
+    payloads (frame.data = ...; frame.unpack()); payload container type alternates between bytes and bytearray."""
+    data = bytearray(payload) if len(payload) % 2 else bytes(payload)
+    if reuse:
+        fr = _REUSE.get(cls)
+        if fr is None:
+            fr = _REUSE[cls] = cls()
+        fr.data = data
+        try:
+            fr.unpack()
+        except Exception:
+            _REUSE.pop(cls, None)
+            raise
+    else:
+        fr = cls.construct(data)
     if disturb is not None:
         try:
             cls.construct(bytearray(disturb))
@@ -51,9 +67,15 @@ def py_value(tok):
     return (bytes.fromhex(h) if h != '-' else b'').decode('utf-8')
 
 
-def impl_decsetenc(cls, payload, name, vtok, attr_style=True):
+def impl_decsetenc(cls, payload, name, vtok, style=0):
+    """style 0: frame.f.<name> = v; 1: frame.get(name).value = v; 2: frame.f.get(name).value = v"""
     fr = cls.construct(bytearray(payload))
-    setattr(fr.f, name, py_value(vtok))
+    if style == 0:
+        setattr(fr.f, name, py_value(vtok))
+    elif style == 1:
+        fr.get(name).value = py_value(vtok)
+    else:
+        fr.f.get(name).value = py_value(vtok)
     fr.pack()
     return C.hexs(fr.data)
 
